@@ -32,6 +32,13 @@ func replayOne(c *hx.Ctx, in *input) {
 		evalMerkle(c, "replay", ids, len(ids) <= 8)
 	case "confusion":
 		probeInnerNode(c)
+	case "lifetime":
+		var raws [][]byte
+		for _, h := range in.List {
+			raws = append(raws, hx.UnHex(h))
+		}
+		lifetimeBatch(c, "replay", raws)
+		lifetimeConcurrent(c, raws)
 	default:
 		evalBlock(c, "replay", hx.UnHex(in.Hex), false, true)
 	}
@@ -58,6 +65,7 @@ func Run(c *hx.Ctx) {
 	probeCounts(c, signers)
 	probeKeys(c, signers)
 	probeInnerNode(c)
+	probeLifetime(c, signers)
 
 	// G1/G2/G3: valid blocks and their mutations
 	nBlocks := c.N(20, 300)
